@@ -5,10 +5,13 @@
     matcher assembly, the radix tree's Add / findNode / Find, FindRule, Execute's
     encoded-slash switch and capture decoding).  Spec.v is the documentation:
     path expressions, `ALL` / `!M` method lists, any-host, path_params on decoded
-    segments, decoded captures.  Guards name the open findings C03-F1, F3, F4, F8;
-    each has a `_refuted` witness.  C03-F2, F5, F6, F7 were repaired by `fix:` commits
-    (88da16a, 16cf34b, 72ba5d4, a779db8): the model is parametric in them ([fx2 fx5 fx6 fx7],
-    [true] = the tree as it is now) and the pinned behaviour is kept as `_pinned_refuted`.
+    segments, decoded captures.  Guards name the open findings C03-F1, F4, F8;
+    each has a `_refuted` witness.  C03-F2, F3, F5, F6, F7 were repaired by `fix:` commits
+    (88da16a, 20f92b3, 16cf34b, 72ba5d4, a779db8): the model is parametric in them ([fx2 fx3 fx5
+    fx6 fx7], [true] = the tree as it is now) and the pinned behaviour is kept as `_pinned_refuted`.
+    [fx1], [fx4] are the candidate repairs fixes/C03-F1.diff, fixes/C03-F4.diff (not in /repo:
+    [false] = the tree as it is); the theorems hold for both values, the guards of C03-F1 and
+    C03-F4 being false by definition when the flag is [true].
     What is left of the guard of C03-F6 is the request view without RawPath, which no entry
     point produces for a non-empty path any more (ae6db4f). *)
 From HV Require Import Base.Prelude C03.Model C03.Spec C03.Proofs C03.ProofsTree.
@@ -17,35 +20,38 @@ Open Scope string_scope.
 
 (** the list createMethodMatcher computes contains exactly the methods the configured
     list denotes: listed (`ALL` = the nine HTTP methods), not excluded with `!` *)
-Theorem C03_method_list_semantics : forall ms l,
-  create_method_matcher ms = Ok l ->
+Theorem C03_method_list_semantics : forall fx4 ms l,
+  create_method_matcher fx4 ms = Ok l ->
   (forall m, mem m l = true <->
      (((has_bang m = false /\ m <> "ALL" /\ In m ms) \/ (In "ALL" ms /\ In m nine)) /\ ~ In ("!" ++ m) ms)) /\
-  (forall q, guard_F4 ms = false -> method_match l q = spec_method ms (q_method q)).
+  (forall q, guard_F4 fx4 ms = false -> method_match l q = spec_method ms (q_method q)).
 Proof. exact method_list_semantics_full. Qed.
 Print Assumptions C03_method_list_semantics.
 
-(** a methods list is rejected exactly when it contains an empty string *)
-Theorem C03_method_list_rejected : forall ms, create_method_matcher ms = Rejected <-> In "" ms.
-Proof. exact create_method_rejected. Qed.
+(** a methods list is rejected exactly when it contains an empty string — and, with the
+    candidate repair fixes/C03-F4.diff ([fx4 = true]), when it allows no method *)
+Theorem C03_method_list_rejected : forall ms,
+  (create_method_matcher false ms = Rejected <-> In "" ms) /\
+  (create_method_matcher true ms = Rejected <-> In "" ms \/ guard_F4 false ms = true).
+Proof. exact method_list_rejected. Qed.
 Print Assumptions C03_method_list_rejected.
 
 (** C03-F4: a non-empty list denoting no method is turned into "all methods" *)
 Theorem C03_F4_refuted :
-  exists r cm q, only_matcher r = Some cm /\ guard_F4 (rl_methods r) = true /\
-    route_matches true true eng_none cm q [] [] = MYes /\ spec_route_ok eng_none r [] q [] [] = false.
+  exists r cm q, only_matcher false r = Some cm /\ guard_F4 false (rl_methods r) = true /\
+    route_matches false true true eng_none cm q [] [] = MYes /\ spec_route_ok eng_none r [] q [] [] = false.
 Proof. exact F4_refuted. Qed.
 Print Assumptions C03_F4_refuted.
 
 (** hosts: any one of the listed expressions, unless they disagree (C03-F1) *)
-Theorem C03_hosts_any : forall eng hs q,
-  guard_F1 eng hs q = false -> hosts_match eng hs q = spec_hosts eng hs q.
+Theorem C03_hosts_any : forall fx1 eng hs q,
+  guard_F1 fx1 eng hs q = false -> hosts_match fx1 eng hs q = spec_hosts eng hs q.
 Proof. exact hosts_semantics. Qed.
 Print Assumptions C03_hosts_any.
 
 Theorem C03_F1_refuted :
-  exists r cm q, only_matcher r = Some cm /\ guard_F1 eng_none (rl_hosts r) q = true /\
-    route_matches true true eng_none cm q [] [] = MNo /\ spec_route_ok eng_none r [] q [] [] = true.
+  exists r cm q, only_matcher false r = Some cm /\ guard_F1 false eng_none (rl_hosts r) q = true /\
+    route_matches false true true eng_none cm q [] [] = MNo /\ spec_route_ok eng_none r [] q [] [] = true.
 Proof. exact F1_refuted. Qed.
 Print Assumptions C03_F1_refuted.
 
@@ -62,17 +68,17 @@ Print Assumptions C03_decode_per_setting.
     it is asked with, exactly as the documented conditions say — scheme (when
     set), method list, any host, every path_params expression on the decoded value
     of the named wildcard — and never panics; for all rules, engines, requests *)
-Theorem C03_route_matches_iff : forall eng r cr,
-  create_rule r = Ok cr ->
+Theorem C03_route_matches_iff : forall fx1 fx4 eng r cr,
+  create_rule fx4 r = Ok cr ->
   forall path cm, In (path, cm) (cr_routes cr) ->
   exists rt, In rt (rl_routes r) /\ path = rt_path rt /\
     forall q keys vals,
       length keys = length vals -> Forall valid_enc vals -> Forall (from_path q) vals ->
-      guard_F1 eng (rl_hosts r) q = false ->
-      guard_F4 (rl_methods r) = false ->
+      guard_F1 fx1 eng (rl_hosts r) q = false ->
+      guard_F4 fx4 (rl_methods r) = false ->
       on_params (guard_F6 true) (rl_slash r) q keys vals (rt_params rt) = false ->
       on_params guard_F8 (rl_slash r) q keys vals (rt_params rt) = false ->
-      route_matches true true eng cm q keys vals =
+      route_matches fx1 true true eng cm q keys vals =
       of_bool (spec_scheme (rl_scheme r) q && spec_method (rl_methods r) (q_method q) &&
                spec_hosts eng (rl_hosts r) q &&
                forallb (spec_param eng (rl_slash r) q keys vals) (rt_params rt)).
@@ -81,10 +87,10 @@ Print Assumptions C03_route_matches_iff.
 
 (** the pinned tree (before 72ba5d4) evaluated path_params on the still encoded value under `off` *)
 Theorem C03_F6_pinned_refuted :
-  exists r ps cm q keys vals, only_matcher r = Some cm /\ cm_params cm = ps /\
+  exists r ps cm q keys vals, only_matcher false r = Some cm /\ cm_params cm = ps /\
     length keys = length vals /\ Forall valid_enc vals /\ Forall (from_path q) vals /\
     on_params (guard_F6 false) (rl_slash r) q keys vals ps = true /\
-    route_matches false true eng_none cm q keys vals = MNo /\ spec_route_ok eng_none r ps q keys vals = true.
+    route_matches false false true eng_none cm q keys vals = MNo /\ spec_route_ok eng_none r ps q keys vals = true.
 Proof. exact F6_pinned_refuted. Qed.
 Print Assumptions C03_F6_pinned_refuted.
 
@@ -127,7 +133,7 @@ Print Assumptions C03_F8_refuted.
 (** the tree-side findings, on loaded rule sets *)
 Theorem C03_F2_pinned_refuted :
   exists ds q k s segs,
-    served false true true true ds q = Some (ONone, [k]) /\
+    served false true true true true ds q = Some (ONone, [k]) /\
     nth_error (flat_routes 0 ds) (k_vid k) = Some s /\ guard_F2_params s = true /\
     sr_segs s q = Some segs /\
     ~ call_sees_route (flat_routes 0 ds) q k /\
@@ -137,7 +143,7 @@ Print Assumptions C03_F2_pinned_refuted.
 
 Theorem C03_F3_pinned_refuted :
   exists ds q k s segs caps sc,
-    served true true true true ds q = Some (ORule 0 caps false, [k]) /\
+    served true false true true true ds q = Some (ORule 0 caps false, [k]) /\
     nth_error (flat_routes 0 ds) (k_vid k) = Some s /\ sr_rule s = 0 /\
     guard_F3 (flat_routes 0 ds) s = true /\
     sr_segs s q = Some segs /\
@@ -148,8 +154,8 @@ Print Assumptions C03_F3_pinned_refuted.
 
 Theorem C03_F5_pinned_refuted :
   exists ds q k s segs caps sc es t,
-    load false ds = Loaded es t /\ guard_F5 true true true eng_none es t q = true /\
-    served true false true true ds q = Some (ORule 1 caps false, [k]) /\
+    load true false ds = Loaded es t /\ guard_F5 false true true true eng_none es t q = true /\
+    served true true false true true ds q = Some (ORule 1 caps false, [k]) /\
     nth_error (flat_routes 0 ds) (k_vid k) = Some s /\
     sr_segs s q = Some segs /\
     ~ call_sees_route (flat_routes 0 ds) q k /\
@@ -160,8 +166,8 @@ Print Assumptions C03_F5_pinned_refuted.
 
 Theorem C03_F5_pinned_panic_refuted :
   exists ds q k es t,
-    load false ds = Loaded es t /\ guard_F5 true true true eng_none es t q = true /\
-    served true false true true ds q = Some (OPanic, [k]) /\ k_res k = MPanic.
+    load true false ds = Loaded es t /\ guard_F5 false true true true eng_none es t q = true /\
+    served true true false true true ds q = Some (OPanic, [k]) /\ k_res k = MPanic.
 Proof. exact F5_pinned_panic_refuted. Qed.
 Print Assumptions C03_F5_pinned_panic_refuted.
 
@@ -169,11 +175,11 @@ Print Assumptions C03_F5_pinned_panic_refuted.
     kind of condition, and the matcher then says yes *)
 Theorem C03_nonvacuous :
   exists r cm q keys vals,
-    only_matcher r = Some cm /\ length keys = length vals /\ Forall valid_enc vals /\
+    only_matcher false r = Some cm /\ length keys = length vals /\ Forall valid_enc vals /\
     Forall (from_path q) vals /\
-    guard_F1 eng_none (rl_hosts r) q = false /\ guard_F4 (rl_methods r) = false /\
+    guard_F1 false eng_none (rl_hosts r) q = false /\ guard_F4 false (rl_methods r) = false /\
     on_params (guard_F6 true) (rl_slash r) q keys vals (cm_params cm) = false /\
     on_params guard_F8 (rl_slash r) q keys vals (cm_params cm) = false /\
-    route_matches true true eng_none cm q keys vals = MYes.
+    route_matches false true true eng_none cm q keys vals = MYes.
 Proof. exact route_semantics_nonvacuous. Qed.
 Print Assumptions C03_nonvacuous.
